@@ -12,7 +12,7 @@ grep 'V: C' "$out"
 #    way round; a returned expression first put into a local; `x += n` written `x = x + n`; `not (a and b)` written
 #    `(not a) or (not b)` and `if a and b:` written as two nested ifs
 out2=$(mktemp)
-(for k in swap flip temp aug demorgan; do /venv/bin/python tools/mech_one.py list $k; done) | xargs -P 16 -L 1 tools/mech_run.sh > "$out2" 2>&1
+(for k in swap flip temp temp2 aug demorgan; do /venv/bin/python tools/mech_one.py list $k; done) | xargs -P 16 -L 1 tools/mech_run.sh > "$out2" 2>&1
 echo "single-site rewrites: $(grep -c ' | V:' "$out2") variants, $(grep -c 'V: C' "$out2") reported, $(grep -c 'I: C' "$out2") not decided"
 grep 'V: C' "$out2"; rm -f "$out2"
 for mode in format unparse; do
